@@ -1,12 +1,14 @@
 SPECIFICATION Spec
 CONSTANTS
   Cap = 1
+  RecordHist = FALSE
   RHO = 1
   SSP = 1
   BFLOOR = 1
   BMAX = 2
   BT4 = 1000000
   BT3 = 2000000
-INVARIANTS FifoMatch OneOutstanding QuiescentAtEnd NoEarlyReveal
+INVARIANTS FifoMatch OneOutstanding QuiescentAtEnd NoEarlyReveal OutputPrivacy
 PROPERTY Termination
 CHECK_DEADLOCK TRUE
+VIEW view
